@@ -747,4 +747,66 @@ def agileDecrypt (i : AgIn) : Outcome Unit :=
       else if !i.encKeyOK then .err
       else (cbcDecrypt keyLen i.saltLen i.encKeyLen).bind fun _ => decryptPackage i
 
+/-! ## basic-string unescaping (`bstrUnmarshal`, lib.go)
+
+Strings are byte sequences.  `bstrExp.FindAllStringSubmatchIndex` yields the leftmost non-overlapping
+occurrences of `_x[a-fA-F\d]{4}_`; the function then slices the string at those positions. -/
+
+def isHexB (c : Char) : Bool :=
+  (48 ≤ c.toNat && c.toNat ≤ 57) || (65 ≤ c.toNat && c.toNat ≤ 70) || (97 ≤ c.toNat && c.toNat ≤ 102)
+
+/-- `_x[a-fA-F\d]{4}_` occurs at byte offset `i` -/
+def escAt (s : List Char) (i : Nat) : Bool :=
+  decide (i + 7 ≤ s.length) && (s.getD i ' ' == '_') && (s.getD (i + 1) ' ' == 'x') &&
+  isHexB (s.getD (i + 2) ' ') && isHexB (s.getD (i + 3) ' ') && isHexB (s.getD (i + 4) ' ') &&
+  isHexB (s.getD (i + 5) ' ') && (s.getD (i + 6) ' ' == '_')
+
+/-- the match positions `[start, end)` from offset `i` on -/
+def bstrMatches (s : List Char) : Nat → Nat → List (Nat × Nat)
+  | 0, _ => []
+  | fuel + 1, i =>
+    if i < s.length then
+      (if escAt s i then (i, i + 7) :: bstrMatches s fuel (i + 7) else bstrMatches s fuel (i + 1))
+    else []
+
+inductive BSeg where
+  /-- `s[a:b]` copied -/
+  | lit (a b : Nat)
+  /-- the escape whose four hex digits are `s[a:b]` -/
+  | code (a b : Nat)
+  deriving Repr, DecidableEq
+
+/-- the loop of `bstrUnmarshal` over the matches: `s[cursor:match[0]]`, `s[match[0]:match[1]]`,
+`s[match[0]+2:match[1]-1]`, and the tail `s[cursor:]` -/
+def bstrSegs (len : Nat) : List (Nat × Nat) → Nat → Outcome (List BSeg)
+  | [], cursor => if cursor < len then (if sliceOK len cursor len then .ok [.lit cursor len] else .panic) else .ok []
+  | (m0, m1) :: rest, cursor =>
+    if ¬ sliceOK len cursor m0 then .panic
+    else if ¬ sliceOK len m0 m1 then .panic
+    else if ¬ sliceOK len (m0 + 2) (m1 - 1) then .panic
+    else (bstrSegs len rest m1).bind fun t => .ok (.lit cursor m0 :: .code (m0 + 2) (m1 - 1) :: t)
+
+def bstrUnmarshal (s : List Char) : Outcome (List BSeg) :=
+  bstrSegs s.length (bstrMatches s (s.length + 1) 0) 0
+
+/-! ## GetRows: result accounting of the streaming reader -/
+
+/-- the loop of `GetRows` over the iterations of `rows.Next()`: each iteration delivers an empty or a
+non-empty row (`true`); state = (`len(results)`, `cur`, `maxVal`).  `make([][]string, emptyRows)` and the
+final `results[:maxVal]` are explicit. -/
+def getRowsLoop : List Bool → Nat → Int → Int → Outcome (Nat × Int)
+  | [], len, _, maxVal => .ok (len, maxVal)
+  | nonEmpty :: rest, len, cur, maxVal =>
+    let cur1 := cur + 1
+    if nonEmpty then
+      let emptyRows := cur1 - maxVal - 1
+      if emptyRows > 0 then getRowsLoop rest (len + emptyRows.toNat + 1) cur1 cur1
+      else getRowsLoop rest (len + 1) cur1 cur1
+    else getRowsLoop rest len cur1 maxVal
+
+/-- `GetRows`: number of rows returned (`results[:maxVal]`) -/
+def getRows (iters : List Bool) : Outcome Nat :=
+  (getRowsLoop iters 0 0 0).bind fun (len, maxVal) =>
+    if 0 ≤ maxVal ∧ maxVal ≤ (len : Int) then .ok maxVal.toNat else .panic
+
 end XlModel.Decode
